@@ -254,6 +254,7 @@ func cmdRender(args []string) {
 	block := fs.Int("block", 4000, "cases per block (memory)")
 	reuse := fs.Int("reuse", 0, "renders that reuse one loaded chart object (sequential; concurrent = -m)")
 	caps := fs.Int("caps", 0, "rounds of overlapping renders with one --api-versions entry each (charts that consult .Capabilities; 0 = off)")
+	nohooks := fs.Bool("nohooks", false, "also dry-run with DisableHooks (client-only and --dry-run=server)")
 	route := fs.Bool("route", false, "also render through a Configuration with a cluster connection (--dry-run=server)")
 	fs.Parse(args)
 	inAbs, _ := filepath.Abs(*in)
@@ -285,7 +286,7 @@ func cmdRender(args []string) {
 		if end > len(lines) {
 			end = len(lines)
 		}
-		for _, ol := range renderBlock(lines[start:end], start, hd, root, pl, *seed, *workers, *children, *uninst, *disk, *eng, *reuse, *route, *caps) {
+		for _, ol := range renderBlock(lines[start:end], start, hd, root, pl, *seed, *workers, *children, *uninst, *disk, *eng, *reuse, *route, *caps, *nohooks) {
 			must(enc.Encode(ol))
 		}
 	}
@@ -293,7 +294,7 @@ func cmdRender(args []string) {
 	f.Close()
 }
 
-func renderBlock(lines []render.CaseLine, offset int, hd hostDirs, root string, pl render.Plan, seed int64, workers, children, uninst int, disk, eng bool, reuse int, route bool, caps int) []render.ObsLine {
+func renderBlock(lines []render.CaseLine, offset int, hd hostDirs, root string, pl render.Plan, seed int64, workers, children, uninst int, disk, eng bool, reuse int, route bool, caps int, nohooks bool) []render.ObsLine {
 	hd.setCanary("CANARY-A")
 	hd.setDefs("absent")
 	refined := make([]render.CaseLine, len(lines))
@@ -331,6 +332,9 @@ func renderBlock(lines []render.CaseLine, offset int, hd hostDirs, root string, 
 		render.ObserveReuse(accs[i], mat, reuse, pl.M, seed)
 		if route {
 			render.ObserveRoute(accs[i], mat, seed)
+		}
+		if nohooks {
+			render.ObserveNoHooks(accs[i], mat, seed)
 		}
 		if caps > 0 {
 			render.ObserveCaps(accs[i], mat, caps, 8, seed)
